@@ -10,13 +10,13 @@ Abstract journal (what spec/Jbd2.tla calls the log) -> bytes in the journal inod
           "log": [rec_1 .. rec_L]}           ring position p (1-based) <-> journal block first + p - 1
   rec  = {"t": "junk"}
        | {"t": "desc",   "seq": s, "ok": 0|1, "id": n, "tags": [{"blk": b, "v": v, "cs": v | -1, "esc": 0|1}, ...]}
-       | {"t": "data",   "v": v}                               payload of version v (escaped in the log if EscOf(v))
+       | {"t": "data",   "v": v, "esc": 0|1}                    payload of version v
        | {"t": "revoke", "seq": s, "ok": 0|1, "blks": [b, ...]}
        | {"t": "commit", "seq": s, "ok": 0|1, "time": t, "hassum": 0|1, "sum": [rec, ...]}
 
-Target blocks are abstract indices 1..NB mapped to physical block numbers by the caller.
-A version v > 0 is "escaped" iff v % 2 == 0 is NOT used; the escape bit travels in the tag ("esc") and in the
-payload itself (an escaped version's true content begins with the JBD2 magic)."""
+Target blocks are abstract indices 1..NB mapped to physical block numbers by the caller.  The escape bit travels in
+the tag ("esc") and in the data record; an escaped version's true content begins with the JBD2 magic, its image in
+the log has those four bytes zeroed."""
 import struct, os, sys, json
 
 MAGIC = 0xC03B3998
@@ -220,9 +220,9 @@ STALE_V = 9000      # data blocks "from an earlier life of the log" use versions
 
 
 class Encoder:
-    def __init__(self, cfg, bs, uuid, tblk, esc_of, uuid_mode="first", junk_mode="zero"):
-        """cfg: csum/b64/async; tblk: abstract block index -> physical fs block; esc_of: version -> 0/1."""
-        self.cfg, self.bs, self.uuid, self.tblk, self.esc_of = cfg, bs, uuid, tblk, esc_of
+    def __init__(self, cfg, bs, uuid, tblk, uuid_mode="first", junk_mode="zero"):
+        """cfg: csum/b64/async; tblk: abstract block index -> physical fs block."""
+        self.cfg, self.bs, self.uuid, self.tblk = cfg, bs, uuid, tblk
         self.uuid_mode, self.junk_mode = uuid_mode, junk_mode
         self.csum = cfg["csum"]
         self.v23 = self.csum in (2, 3)
@@ -258,12 +258,11 @@ class Encoder:
         return bytes(b) + b"\0" * (self.bs - 1024)
 
     def data(self, rec):
-        v = rec["v"]
-        return log_image(v, self.esc_of(v), self.bs)
+        return log_image(rec["v"], rec.get("esc", 0), self.bs)
 
-    def _tagcsum(self, seq, v):
+    def _tagcsum(self, seq, v, esc):
         c = crc32c_raw(self.seed, struct.pack(">I", seq & 0xFFFFFFFF))
-        return crc32c_raw(c, log_image(v, self.esc_of(v), self.bs))
+        return crc32c_raw(c, log_image(v, esc, self.bs))
 
     def desc(self, rec):
         b = bytearray(self.bs)
@@ -280,7 +279,8 @@ class Encoder:
             cs = 0
             if self.v23:
                 # cs = version whose log image the stored checksum matches; -1 = a corrupted checksum field
-                cs = self._tagcsum(rec["seq"], t["cs"]) if t["cs"] >= 0 else (self._tagcsum(rec["seq"], t["v"]) ^ 0x00010001)
+                e = t.get("esc", 0)
+                cs = self._tagcsum(rec["seq"], t["cs"], e) if t["cs"] >= 0 else (self._tagcsum(rec["seq"], t["v"], e) ^ 0x00010001)
             if self.csum == 3:
                 struct.pack_into(">IIII", b, off, pb & 0xFFFFFFFF, fl, pb >> 32, cs)
             else:
@@ -349,13 +349,13 @@ class Encoder:
         raise ValueError("unknown record " + t)
 
 
-def write_journal(img_path, absj, tblk, esc_of, first=1, uuid=None, uuid_mode="first", junk_mode="zero",
+def write_journal(img_path, absj, tblk, first=1, uuid=None, uuid_mode="first", junk_mode="zero",
                   needs_recovery=1, jdev=None):
     """Encode absj into the journal of img_path (internal journal inode, or external device image jdev)."""
     im = Image(img_path)
     cfg = absj["cfg"]
     uuid = uuid or bytes(range(0x10, 0x20))
-    enc = Encoder(cfg, im.bs, uuid, tblk, esc_of, uuid_mode, junk_mode)
+    enc = Encoder(cfg, im.bs, uuid, tblk, uuid_mode, junk_mode)
     jmap = im.journal_map()
     L = cfg["L"]
     maxlen = first + L
